@@ -16,6 +16,8 @@ pub struct C20 {
     per_kind: BTreeMap<&'static str, usize>,
     pub first_n: usize,
     pub then_every: usize,
+    probe_n: u32,
+    pub farm_side: bool,
 }
 
 impl C20 {
@@ -24,12 +26,93 @@ impl C20 {
             per_kind: BTreeMap::new(),
             first_n,
             then_every,
+            probe_n: 0,
+            farm_side: false,
         }
+    }
+}
+
+impl C20 {
+    /// forked: an expired farm whose refund is blocked must not stop somebody else's creation
+    /// (automatic close), and everything else must equal the unblocked run
+    fn auto_close_probe(&mut self, w: &mut World, s: &Step, rep: &mut Reporter) {
+        use crate::wfarm::{farm_funds, farm_op};
+        use cosmwasm_std::coin;
+        use mantra_dex_std::farm_manager::FarmParams;
+        let cur = match s.fpost.epoch {
+            Some(e) => e,
+            None => return,
+        };
+        let lp = match s.post.pools.values().next() {
+            Some(p) => p.info.lp_denom.clone(),
+            None => return,
+        };
+        if s.fpost.farms.values().filter(|f| f.lp_denom == lp).count() as u32 >= s.fpost.cfg.max_concurrent_farms {
+            return;
+        }
+        let snap = w.snapshot();
+        let (x, y) = (w.users[0].clone(), w.users[1].clone());
+        let fee = s.fpost.cfg.create_farm_fee.clone();
+        let reward = coin(5_000, "uusdc");
+        self.probe_n += 1;
+        let mk = |id: String, start: u64| FarmAction::Create { params: FarmParams { lp_denom: lp.clone(), start_epoch: Some(start), preliminary_end_epoch: Some(start + 2), curve: None, farm_asset: reward.clone(), farm_identifier: Some(id) } };
+        if !w.apply(&farm_op(&x, mk(format!("old{}", self.probe_n), cur + 1), farm_funds(&reward, &fee))).is_ok() {
+            w.restore(&snap);
+            return;
+        }
+        // far beyond the farm's end and the expiration time
+        w.advance((4 + 1) * w.cfg.epoch_duration + s.fpost.cfg.farm_expiration_time + 10);
+        let later = fobserve(w).epoch.unwrap_or(cur + 40);
+        let base = w.snapshot();
+        let create = farm_op(&y, mk(format!("new{}", self.probe_n), later + 1), farm_funds(&reward, &fee));
+        let reference = w.apply(&create);
+        if !reference.is_ok() {
+            w.restore(&snap);
+            return;
+        }
+        let (ro, rf) = (observe(w), fobserve(w));
+        w.restore(&base);
+        w.mon.borrow_mut().fail_send_to = Some(x.to_string());
+        let out = w.apply(&create);
+        w.mon.borrow_mut().fail_send_to = None;
+        let (o, f) = (observe(w), fobserve(w));
+        let mut errs = vec![];
+        if !out.is_ok() {
+            errs.push(format!("a blocked refund to the expired farm's owner made somebody else's farm creation fail: {}", out.short()));
+        } else {
+            if f.farms != rf.farms || f.positions != rf.positions {
+                errs.push("farms / positions differ from the unblocked run".to_string());
+            }
+            let refund: u128 = reference.log().iter().filter(|e| e.to == x.as_str() && e.from == w.fm.as_str()).flat_map(|e| e.coins.iter()).filter(|c| c.denom == "uusdc").map(|c| c.amount.u128()).sum();
+            for (acct, bals) in &ro.bal {
+                for (d, amt) in bals {
+                    let mut exp = *amt as i128;
+                    if d == "uusdc" && acct == x.as_str() {
+                        exp -= refund as i128;
+                    }
+                    if d == "uusdc" && acct == w.fm.as_str() {
+                        exp += refund as i128;
+                    }
+                    if o.bal.get(acct).and_then(|m| m.get(d)).copied().unwrap_or(0) as i128 != exp {
+                        errs.push(format!("balance of {} in {d} differs from the unblocked run beyond the refund", w.name_of(acct)));
+                    }
+                }
+            }
+        }
+        if errs.is_empty() {
+            rep.held("tolerated_refund_failure", hash_of(&("auto_close_probe", fee.amount.is_zero())), || json!({"scenario": "expired farm auto-closed by another user's creation while its owner cannot receive transfers", "creation": "succeeds", "rest": "identical to the unblocked run"}));
+        } else {
+            rep.failed("tolerated_refund_failure", None, errs.join("; "), witness(json!({"scenario": "auto close with blocked refund"})));
+        }
+        w.restore(&snap);
     }
 }
 
 impl Monitor for C20 {
     fn step(&mut self, w: &mut World, s: &Step, rep: &mut Reporter) {
+        if self.farm_side && s.idx % 40 == 39 {
+            self.auto_close_probe(w, s, rep);
+        }
         if matches!(s.op, Op::Advance { .. }) {
             return;
         }
